@@ -282,6 +282,21 @@ class RandGen:
         # logic position, avg blocks allowed
         self.text_mode = text_mode
 
+    def const_term(self, choices, nonzero=False):
+        """a constant, sometimes spelled as a compound constant expression ((2 * 3), (1 + 1), (3 / 2), -(2)):
+        the compiler substitutes named constants without folding them, so such shapes reach every stage"""
+        r = self.r
+        if not self.text_mode or r.random() < 0.75:
+            return num(r.choice(choices))
+        for _ in range(10):
+            a, b = r.choice([1, 2, 3, 4, 0.5, -1, -2]), r.choice([1, 2, 3, 4, 0.5, -1, -2])
+            op = r.choice(['*', '*', '+', '-', '/'])
+            v = {'*': a * b, '+': a + b, '-': a - b, '/': a / b}[op]
+            if nonzero and v == 0:
+                continue
+            return [op, num(a), num(b)] if r.random() < 0.85 else ['neg', [op, num(a), num(b)]]
+        return num(r.choice(choices))
+
     def gen_num(self, d, vars):
         r = self.r
         nv = [v for v, k in vars]
@@ -291,10 +306,10 @@ class RandGen:
         if x < 0.12:
             return ['neg', self.gen_num(d - 1, vars)]
         if x < 0.27:
-            c = num(r.choice(self.muls))
+            c = self.const_term(self.muls)
             return ['*', c, self.gen_num(d - 1, vars)] if r.random() < 0.5 else ['*', self.gen_num(d - 1, vars), c]
         if x < 0.34:
-            return ['/', self.gen_num(d - 1, vars), num(r.choice(self.divs))]
+            return ['/', self.gen_num(d - 1, vars), self.const_term(self.divs, nonzero=True)]
         if x < 0.5:
             return [r.choice('+-'), self.gen_num(d - 1, vars), self.gen_num(d - 1, vars)]
         if x < 0.65:
